@@ -270,8 +270,12 @@ bool cmb_event_execute_next(void)
         return false;
     }
 
-    /* Pull off the next event and decode it */
-    struct event_peek *tmp = (struct event_peek *)cmi_hashheap_dequeue(event_queue);
+    /*
+     * Pull off the next event and decode it. Take a copy, since the heap may
+     * be reallocated when wakeup events are scheduled below.
+     */
+    struct event_peek ev = *(struct event_peek *)cmi_hashheap_dequeue(event_queue);
+    struct event_peek *tmp = &ev;
 
     /* Advance clock to time of the next event */
     const double new_time = event_queue->heap[0].dsortkey;
